@@ -180,3 +180,16 @@ pub fn job_regalloc(job: &Sexp) -> String {
         }
     }
 }
+
+/// source text -> SSA circuit of `main` (used to feed compiler output into circuit-level jobs)
+pub fn job_compile(job: &Sexp) -> String {
+    let src = job.field("src").args()[0].text();
+    match catch_unwind(AssertUnwindSafe(|| garble_lang::compile(&src))) {
+        Err(_) => "crash".into(),
+        Ok(Err(_)) => "err".into(),
+        Ok(Ok(p)) => match &p.circuit {
+            garble_lang::circuit_type::CircuitType::Ssa(c) => fmt_ssa(c),
+            _ => "not-ssa".into(),
+        },
+    }
+}
